@@ -100,7 +100,7 @@ func runAttackMonitor(c *Ctx, id string) int {
 	run.Floor("stress_results", 50000)
 	if id == "C02" {
 		run.Floor("stop_histories_checked", int64(c.Pick(1500, 40000)))
-		run.Floor("cli_runs", 2)
+		run.Floor("cli_runs", 3)
 	} else {
 		run.Floor("cap_checks_at_transport_entry", 50000)
 	}
@@ -613,14 +613,25 @@ func c02CLI(c *Ctx, run *ev.Run) {
 		return
 	}
 	defer os.RemoveAll(dir)
-	n := c.Pick(2, 12)
+	n := c.Pick(3, 12)
 	for i := 0; i < n; i++ {
-		twice := i%2 == 1
-		srv := newSlowServer(time.Duration(20+10*(i%5)) * time.Millisecond)
+		twice := i%3 == 1
+		// every third run: the attack has a -duration that elapses while slow requests are still
+		// in flight, and the (single) signal arrives after it - still a graceful stop
+		withDuration := i%3 == 2
+		hold := time.Duration(20+10*(i%5)) * time.Millisecond
+		if withDuration {
+			hold = 700 * time.Millisecond
+		}
+		srv := newSlowServer(hold)
 		targets := filepath.Join(dir, "targets.txt")
 		_ = os.WriteFile(targets, []byte("GET "+srv.srv.URL+"/\n"), 0o644)
 		out := filepath.Join(dir, fmt.Sprintf("out%d.gob", i))
-		cmd := exec.Command(c.Bin("vegeta"), "attack", "-targets", targets, "-rate", "200", "-duration", "0",
+		duration := "0"
+		if withDuration {
+			duration = "150ms"
+		}
+		cmd := exec.Command(c.Bin("vegeta"), "attack", "-targets", targets, "-rate", "200", "-duration", duration,
 			"-workers", "2", "-max-workers", fmt.Sprint(4+i%5), "-output", out, "-name", "cli")
 		var stderr bytes.Buffer
 		cmd.Stderr = &stderr
@@ -630,9 +641,18 @@ func c02CLI(c *Ctx, run *ev.Run) {
 			return
 		}
 		want := int64(10 + 7*i)
+		started := time.Now()
+		if withDuration {
+			want = 4
+		}
 		deadline := time.Now().Add(60 * time.Second)
 		for srv.count.Load() < want && time.Now().Before(deadline) {
 			time.Sleep(time.Millisecond)
+		}
+		if withDuration { // let the duration elapse; requests are held for 700ms, so some are still in flight
+			for time.Since(started) < 350*time.Millisecond {
+				time.Sleep(time.Millisecond)
+			}
 		}
 		_ = cmd.Process.Signal(syscall.SIGINT)
 		if twice {
@@ -659,7 +679,7 @@ func c02CLI(c *Ctx, run *ev.Run) {
 			continue
 		}
 		run.Count("cli_results_decoded", int64(len(seqs)))
-		detail := map[string]any{"signals": map[bool]int{false: 1, true: 2}[twice], "stderr": tail(stderr.String(), 2000), "results": len(seqs), "server_requests": srv.count.Load()}
+		detail := map[string]any{"signals": map[bool]int{false: 1, true: 2}[twice], "duration": duration, "stderr": tail(stderr.String(), 2000), "results": len(seqs), "server_requests": srv.count.Load()}
 		if werr != nil {
 			run.Violate("C02/cli-exit-status/"+map[bool]string{false: "sigint-once", true: "sigint-twice"}[twice],
 				fmt.Sprintf("vegeta attack exited with %v after SIGINT", werr), detail)
@@ -695,7 +715,8 @@ func c02CLI(c *Ctx, run *ev.Run) {
 			}
 			srv.mu.Unlock()
 		}
-		run.Distinct(fmt.Sprintf("cli:%d:%v:%d", i, twice, len(seqs)))
+		run.Distinct(fmt.Sprintf("cli:%d:%v:%v:%d", i, twice, withDuration, len(seqs)))
+		run.Class(fmt.Sprintf("cli/signals-%d/duration-%s", map[bool]int{false: 1, true: 2}[twice], duration))
 	}
 }
 
